@@ -799,6 +799,13 @@ err_t dstuPointRecover(octet point[], const dstu_params* params,
 	wwSetBit(x, 0, 0);
 	if (gf2Tr(x, ec->f, stack) != (bool_t)params->A)
 		wwSetBit(x, 0, 1);
+	// x == 0? [0..01 при A == 0 не является кодом точки]
+	if (qrIsZero(x, ec->f))
+	{
+		trace = 0;
+		dstuEcClose(ec);
+		return ERR_BAD_POINT;
+	}
 	// y <- x + a + b / x^2
 	qrSqr(y, x, ec->f, stack);
 	qrDiv(y, ec->B, y, ec->f, stack);
